@@ -11,6 +11,7 @@ import (
 
 	"github.com/inbucket/inbucket/v3/pkg/message"
 	"github.com/inbucket/inbucket/v3/pkg/storage"
+	"github.com/inbucket/inbucket/v3/pkg/verifhook"
 	"github.com/rs/zerolog/log"
 )
 
@@ -93,6 +94,7 @@ func (mb *mbox) removeMessage(id string) error {
 	}
 	// There are still messages in the index
 	log.Debug().Str("module", "storage").Str("path", msg.rawPath()).Msg("Deleting file")
+	verifhook.Point("file.remove.raw", msg.rawPath())
 	return os.Remove(msg.rawPath())
 }
 
@@ -161,6 +163,7 @@ func (mb *mbox) writeIndex() error {
 		}
 		// Write a new index beside the live one, then atomically replace it.
 		tmpPath := mb.indexPath + ".tmp"
+		verifhook.Point("file.index.create", tmpPath)
 		file, err := os.Create(tmpPath)
 		if err != nil {
 			return err
@@ -168,6 +171,7 @@ func (mb *mbox) writeIndex() error {
 		writer := bufio.NewWriter(file)
 		// Write each message and then flush
 		enc := gob.NewEncoder(writer)
+		verifhook.Point("file.index.write", tmpPath)
 		if err = enc.Encode(mb.name); err != nil {
 			_ = file.Close()
 			return err
@@ -178,15 +182,18 @@ func (mb *mbox) writeIndex() error {
 				return err
 			}
 		}
+		verifhook.Point("file.index.flush", tmpPath)
 		if err := writer.Flush(); err != nil {
 			_ = file.Close()
 			return err
 		}
+		verifhook.Point("file.index.close", tmpPath)
 		if err := file.Close(); err != nil {
 			log.Error().Str("module", "storage").Str("path", mb.indexPath).Err(err).
 				Msg("Failed to close")
 			return err
 		}
+		verifhook.Point("file.index.rename", mb.indexPath)
 		if err := os.Rename(tmpPath, mb.indexPath); err != nil {
 			return err
 		}
@@ -194,6 +201,7 @@ func (mb *mbox) writeIndex() error {
 		// No messages, delete index+maildir; the index goes first so that an interrupted
 		// removal never leaves it listing messages whose content is gone.
 		log.Debug().Str("module", "storage").Str("path", mb.path).Msg("Removing mailbox")
+		verifhook.Point("file.index.remove", mb.indexPath)
 		if err := os.Remove(mb.indexPath); err != nil && !os.IsNotExist(err) {
 			return err
 		}
@@ -205,6 +213,7 @@ func (mb *mbox) writeIndex() error {
 // createDir checks for the presence of the path for this mailbox, creates it if needed
 func (mb *mbox) createDir() error {
 	if _, err := os.Stat(mb.path); err != nil {
+		verifhook.Point("file.dir.mkdir", mb.path)
 		if err := os.MkdirAll(mb.path, 0770); err != nil {
 			log.Error().Str("module", "storage").Str("path", mb.path).Err(err).
 				Msg("Failed to create directory")
@@ -217,6 +226,7 @@ func (mb *mbox) createDir() error {
 // removeDir removes the mailbox, plus empty higher level directories
 func (mb *mbox) removeDir() error {
 	// remove mailbox dir, including index file
+	verifhook.Point("file.dir.removeall", mb.path)
 	if err := os.RemoveAll(mb.path); err != nil {
 		return err
 	}
@@ -245,6 +255,7 @@ func removeDirIfEmpty(path string) (removed bool) {
 		return false
 	}
 	log.Debug().Str("module", "storage").Str("path", path).Msg("Removing dir")
+	verifhook.Point("file.dir.rmdir", path)
 	err = os.Remove(path)
 	if err != nil {
 		log.Error().Str("module", "storage").Str("path", path).Err(err).Msg("Failed to remove")
